@@ -118,23 +118,24 @@ const (
 )
 
 type CertSpec struct {
-	CN         string
-	KeyName    string
-	Serial     *big.Int
-	NotBefore  time.Time
-	NotAfter   time.Time
-	BC         bool // basic constraints extension present
-	IsCA       bool
-	MaxPathLen int // -1 = absent
-	KU         x509.KeyUsage
-	KUExt      int // ExtAbsent / ExtNonCritical / ExtCritical
-	EKU        []string
-	EKUExt     int // criticality of EKU ext when len(EKU)>0 (ExtNonCritical/ExtCritical)
-	OCSP       []string
-	CRL        []string
-	Freshest   bool
-	Extra      []pkix.Extension
-	IssuerName *pkix.Name // override the issuer name (nil: parent's subject)
+	CN           string
+	KeyName      string
+	Serial       *big.Int
+	NotBefore    time.Time
+	NotAfter     time.Time
+	BC           bool // basic constraints extension present
+	IsCA         bool
+	MaxPathLen   int // -1 = absent
+	KU           x509.KeyUsage
+	KUExt        int // ExtAbsent / ExtNonCritical / ExtCritical
+	EKU          []string
+	EKUExt       int // criticality of EKU ext when len(EKU)>0 (ExtNonCritical/ExtCritical)
+	OCSP         []string
+	CRL          []string
+	Freshest     bool
+	Extra        []pkix.Extension
+	IssuerName   *pkix.Name // override the issuer name (nil: parent's subject)
+	EmptySubject bool       // empty subject DN, identity in a critical subjectAltName (RFC 5280 4.1.2.6)
 }
 
 type Cert struct {
@@ -204,6 +205,14 @@ func Issue(spec CertSpec, parent *Cert, signKey crypto.Signer) *Cert {
 		IsCA:                  spec.IsCA,
 		OCSPServer:            spec.OCSP,
 		CRLDistributionPoints: spec.CRL,
+	}
+	if spec.EmptySubject {
+		tmpl.Subject = pkix.Name{}
+		tmpl.DNSNames = []string{"empty-subject.verif.example"}
+		if san, err := asn1.Marshal([]asn1.RawValue{{Class: asn1.ClassContextSpecific, Tag: 2, Bytes: []byte("empty-subject.verif.example")}}); err == nil {
+			tmpl.DNSNames = nil
+			tmpl.ExtraExtensions = append(tmpl.ExtraExtensions, pkix.Extension{Id: asn1.ObjectIdentifier{2, 5, 29, 17}, Critical: true, Value: san})
+		}
 	}
 	if spec.BC {
 		if spec.MaxPathLen >= 0 {
